@@ -10,6 +10,9 @@ Binding: every scenario is materialised (replaced UA sheet, user sheets, <style>
 @media, nested rule, style attribute, <font color> hint, non-matching decoys, in-memory fetcher) and
 tree.GetAllComputedStyles must give the probe element the winner's value.
 Thorough: + seeded simulation of lists of 3 occurrences.
+Also: the page context (PageInit / PageWinner: every ordered pair of 8 page selectors matching the first page; the page's own
+declaration and its @top-left box must come from the more specific, or later, rule) and a variant in which the presentational
+hint comes from the hints style sheet (p[align] -> text-align) instead of an attribute read by the code.
 """
 import os
 from vlib import MachineryError
